@@ -43,18 +43,18 @@ POSITIONS = ["{}", "(setv r {})", "(fn [] {})"]
 # head-specific clause / argument alphabets (deeper arity where the head has its own sub-syntax)
 FAMILIES = {
     "try": (["1", "(do)", "(else)", "(else 1)", "(finally)", "(finally 2)", "(except [] 1)", "(except [e E])", "(except [[E F]] 1)", "(except* [E] 1)"], 4),
-    "for": (["[x xs]", "[]", "1", "(do)", "(else)", "(else 1)", "(break)", "[x (do)]", "[[a b] xs]"], 3),
+    "for": (["[x xs]", "[]", "1", "(do)", "(else)", "(else 1)", "(break)", "[x (do)]", "[[a b] xs]", "[x xs :if c]", "[x xs :do (do)]", "[:setv y 1]"], 3),
     "while": (["1", "(do)", "(else)", "(else 1)", "(break)", "(do (setv y 1) y)"], 3),
     "lfor": (["x", "xs", "(do)", ":if", ":setv", ":do", "1", "#* xs", "y", "(do (setv q 1) q)"], 4),
     "dfor": (["x", "xs", "(do)", ":if", ":setv", "1", "#** d", "y", "(do (setv q 1) q)"], 4),
     "gfor": (["x", "xs", "(do)", ":if", ":do", "1", "#* xs"], 4),
     "sfor": (["x", "xs", "(do)", ":setv", "1", "#* xs"], 4),
     "match": (["x", "1", "\"None\"", "None", "(. a)", "(. a b)", "(|)", "(| 1 2)", "#(#* _)", "[a #* b]", "{\"a\" 1 #** None}", "{\"k\" v #** r}",
-               "(C :k 1)", "(C 1 :k)", "_", ":as", "y", ":if", "(setv y 1)", "(do)", ":k"], 4),
+               "(C :k 1)", "(C 1 :k)", "_", ":as", "y", ":if", "(setv y 1)", "(do)", ":k", "[#* None]", "(None)", "(1 2)", "(True :k 1)"], 4),
     "with": (["[a (f)]", "[(f)]", "[]", "[a]", "[a (do)]", "[:async a (f)]", "[a (f) b (do (setv z 1) (g))]", "1", "(do)"], 3),
-    "defn": (["g", "[]", "[a]", "[a a]", "[#* a #* b]", "[/]", "[*]", "[a / b * c]", "[[a 1] b]", ":async", "\"doc\"", "1", "(do)", "#^ int g", "[#^ (do) a]", ":tp [T]"], 4),
-    "fn": (["[]", "[a]", "[a a]", "[#** k #* a]", "[/]", "[*]", "[[a 1] b]", ":async", "\"doc\"", "1", "(do)", "#^ int []", "(yield)"], 3),
-    "defclass": (["K", "[]", "[B]", "[:k 1]", "[#* b]", "\"doc\"", "1", "(do)", ":tp [T]"], 4),
+    "defn": (["g", "[]", "[a]", "[a a]", "[#* a #* b]", "[/]", "[*]", "[a / b * c]", "[[a 1] b]", ":async", "\"doc\"", "1", "(do)", "#^ int g", "[#^ (do) a]", ":tp [T]", ":tp [None]", ":tp [#* True]"], 4),
+    "fn": (["[]", "[a]", "[a a]", "[#** k #* a]", "[/]", "[*]", "[[a 1] b]", ":async", "\"doc\"", "1", "(do)", "#^ int []", "(yield)", ":tp [None]"], 3),
+    "defclass": (["K", "[]", "[B]", "[:k 1]", "[#* b]", "\"doc\"", "1", "(do)", ":tp [T]", ":tp [None]", "None"], 4),
     "import": (["a", "a.b", "[x]", "[x :as y]", ":as", "b", "*", "[]", "[*]", ".", "..a", "(do)"], 3),
     "require": (["a", "a.b", "[x]", "[x :as y]", ":as", "b", "*", "[]", ":macros", ":readers", "[*]", "(do)"], 3),
     "setv": (["a", "1", "[a b]", "(get a 1)", "a.b", "#* a", "(do)", "None", ":chain", "[a]", "[a #* b #* c]", "#^ int a"], 3),
